@@ -420,9 +420,28 @@ func c20CLI(c *ctx) {
 		"grammar g;\n@left\nstart = \"a\";\n",
 		"grammar g;\nstart = \"a\" ;\n/* never closed\n",
 	}
+	names := make([]string, len(texts))
+	for i := range names {
+		names[i] = fileName
+	}
+	// percent signs in the file name, in the offending token and in the unterminated element (a diagnostic is text, never
+	// a format string)
+	for _, x := range []struct{ name, text string }{
+		{"rules%20v2.ebnf", "grammar g;\nstart = ( \"a\" ;\n"},
+		{"100%s.ebnf", "grammar g;\nstart = \"a\" # ;\n"},
+		{"%d%d%v.ebnf", "grammar g;\nT = ;\n"},
+		{fileName, "grammar g;\nstart = \"a\" ;\n\"%d%s\" = ;\n"},
+		{fileName, "grammar g;\nstart = \"a\" \"100%d\n;\n"},
+		{fileName, "grammar g;\nstart = x /%v%!/ ;\n"},
+		{"a%.ebnf", "grammar g;\nstart = \"50%\" ) ;\n"},
+	} {
+		names = append(names, x.name)
+		texts = append(texts, x.text)
+	}
 	for i, text := range texts {
 		c.eval()
 		rd := refRead(text)
+		fileName := names[i]
 		f := filepath.Join(dir, fileName)
 		_ = os.WriteFile(f, []byte(text), 0o644)
 		cmd := exec.Command(bin, "-out", dir, f)
@@ -447,7 +466,9 @@ func c20CLI(c *ctx) {
 		want := fmt.Sprintf("%s:%d:%d", fileName, ln, col)
 		c.nontrivial(text)
 		if !strings.Contains(msg, want) {
-			c.violate(violation{Case: fmt.Sprintf("cli%d", i), Input: text, Observed: "CLI output: " + msg, Expected: "names " + want})
+			c.violate(violation{Case: fmt.Sprintf("cli%d", i), Input: map[string]string{"file": fileName, "text": text}, Observed: "CLI output: " + msg, Expected: "names " + want})
+		} else if strings.Contains(msg, "%!") && !strings.Contains(text, "%!") || strings.Contains(msg, "(MISSING)") || strings.Contains(msg, "(EXTRA ") {
+			c.violate(violation{Case: fmt.Sprintf("cli%d", i), Input: map[string]string{"file": fileName, "text": text}, Observed: "CLI output: " + msg, Expected: "the diagnostic as text (it was used as a format string)"})
 		}
 	}
 }
